@@ -20,6 +20,7 @@ pub fn run(ctx: &Ctx) {
     let one = |sweep: &str, i: u64, shape: String, tx: &Tx, sg: &(U256, U256, bool)| {
         let text = txjson::tx_json(tx, Spell::Auto).to_text();
         let replay = || tx_replay(sweep, i, &text, Some(tx), None);
+        emit_tx(ctx, sweep, i, 4, &shape, &text, Some(tx), "must-accept", &refmodel::secp::Curve::new());
         ctx.sample(sweep, || serde_json::json!({"shape": shape, "json_prefix": &text[..text.len().min(300)]}));
         match observe_tx(&text, &Signer::Fixed(sg.0, sg.1, sg.2)) {
             Err(pn) => { ctx.eval(format!("{shape}:panic")); ctx.panic_violation(format!("{P}:encode:{shape}:panic@{}", explore::panic_site(&pn)), format!("panics: {pn}"), replay()) }
